@@ -118,6 +118,14 @@ change nothing (either `closed` is returned or the send on the closed channel is
 theorem push_after_close_dropped (fx : Bool) (s : St) (hc : s.closed = true) : fire fx s .push = some s := by
   simp [fire, hc]
 
+/-- **a sender parked on the full send queue is released harmlessly by the close**: the heartbeat
+goroutine blocked in `s.chSend <- p` (non-reading client, 9999 queued writes) simply goes back to
+its loop when `Close` closes the channel (the panic is recovered inside `pushToSend`); nothing else
+changes, and from there `every_ending_closes` applies. -/
+theorem parked_sender_released (fx : Bool) (s : St) (hb : s.hb = .blk) (hc : s.hbC = .out) (hcl : s.closed = true) :
+    fire fx s .hbUnblk = some { s with hb := .sel } := by
+  simp [fire, hb, hc, hcl]
+
 /-- **unique live id**: two sessions whose `AllocId` calls are fewer than `M - 1` apart
 (`M = 2^32`) get different ids, and no id is 0.  Hence the id of a new session differs
 from the id of every live session as long as fewer than `2^32 - 2` sessions were
